@@ -373,6 +373,7 @@ class ConfigParser(object):
   suitable for tabulation functions."""
 
   _signature_re = re.compile(r"^([a-zA-Z]\w*?)\((.*)\)")
+  _parameter_name_re = re.compile(r"^[a-zA-Z_]\w*$")
 
   # Map of sections relevant to ConfigParser
   # Keys are section keys as the appear to the _config_parser (_RawConfigParser)
@@ -610,6 +611,9 @@ class ConfigParser(object):
     label = label.strip()
 
     params = [p.strip() for p in params.split(',')]
+    for p in params:
+      if not self._parameter_name_re.match(p):
+        raise ConfigParserException("Invalid parameter name '{1}' in function signature found in [Potential-Form]: '{0}'".format(pf, p))
     return PotentialFormSignatureTuple(label, params, False)
 
   def _parse_params_section(self, section_name, parse_line_func):
